@@ -17,7 +17,7 @@ CHUNK = {"quick": 50, "thorough": 200}
 PROBES = ["unaligned_read_then_observe", "read_at_eof", "read_past_eof", "read0", "read_all", "seek_set", "seek_cur",
           "seek_end", "len_mod4_nonzero", "len_lt_16", "detect_marker_and_size", "detect_size_only",
           "detect_marker_only", "detect_decoy_marker", "negative_rejected", "nonce_zero_byte", "head_unaligned", "first_op_without_seek", "read_without_argument",
-          "constructed_with_default_offset"]
+          "constructed_with_default_offset", "stub_at_search_range_limit"]
 RULE = ("seeded plans: (a) direct construction over arbitrary plaintext (len 0..4100, every residue mod 4, many <16), "
         "nonce incl. zero bytes, stub 0-900 bytes, 1-12 histories of 1-24 seek/read/tell ops; (b) detection via "
         "from_file on stub|nonce|size|rolling-xor(PE image) with marker+size / size only / marker only variants, decoy "
@@ -29,7 +29,7 @@ ASSUMPTIONS = [
     "read(n) only for n in {0,1,2,...,-1}; read(None) and other negatives are not generated",
     "the value returned by seek() is recorded but not part of the oracle (the property speaks of reads and the reported position, i.e. tell())",
     "underlying reader is a full-read seekable file (no short reads injected)",
-    "detection domain: nonce offset < 1000, decoded content starts with a PE image (MZ within the first 1024 bytes)",
+    "detection domain: the documented search range (size relation at offsets 0..1023, end-of-stub marker entirely before offset 1024), decoded content starts with a PE image (MZ within the first 1024 bytes)",
 ]
 REAL = ["xordecode.XorEncodedFile (read/seek/tell/read_nonce/from_file)", "xordecode.iter_nonce_offsets",
         "utils.iter_find_needle", "pe.find_mz_offset", "utils.xor"]
@@ -101,9 +101,15 @@ def generate(rng, tier, index):
               "prepend": rng.choice([0, 0, 1, 2, 3, 7, rng.randint(0, 300)]), "extra": rng.randint(0, 7),
               "seed": rng.getrandbits(20), "text": rng.choice([16, 512])}
         decoys = rng.choice([0, 0, 1, 2])
-        n = rng.choice([0, 1, 12, 100, 600, 990, rng.randint(0, 990)])
+        # the documented search range (maxrange=1024): size relation tried at offsets 0..1023, end-of-stub marker has to lie
+        # entirely before offset 1024 - stubs right up to those limits are in the domain
         if variant == "size":
-            n = max(0, min(n, 990))
+            n = rng.choice([0, 1, 12, 100, 600, 990, 1019, 1020, 1021, 1022, 1023, rng.randint(0, 1023)])
+        elif variant == "marker":
+            n = rng.choice([0, 1, 12, 100, 600, 990, 1017, 1018, 1019, 1020, 1021, rng.randint(0, 1021)])
+        else:
+            # "both": the nonce offset n+3 itself has to be within the size relation's range, otherwise it is marker-only
+            n = rng.choice([0, 1, 12, 100, 600, 990, 1017, 1018, 1019, 1020, rng.randint(0, 1020)])
         stub = _stub(rng, n, variant in ("both", "marker"), decoys)
         plen_guess = 2200
         return {"mode": "detect", "variant": variant, "pe": pe, "nonce": hx(nonce), "stub": hx(stub), "B": B,
@@ -293,6 +299,8 @@ def execute(plan: dict) -> Result:
                        [plan["variant"]]] += 1
             if stub[:-3].find(b"\xff\xff\xff") >= 0:
                 res.probes["detect_decoy_marker"] += 1
+            if no >= 1019:
+                res.probes["stub_at_search_range_limit"] += 1
             fh = seam.file(raw)
             fh.seek(len(raw) // 3)
             try:
